@@ -220,28 +220,77 @@ pub fn check(a: &Analysis, _aux: &mut Aux, t: &mut Tally) -> Vec<Violation> {
         if !judge(&c, &sigs, t, &mut v) {
             continue;
         }
-        // later calls on the same connection: each a complete record in one segment, as long as
-        // every message before it was a call the statement speaks about (so that the stream parser
-        // is at a record boundary by the statement alone)
-        for sg in st.segs.iter().skip(1) {
-            if sg.len == 0 {
-                continue;
+        // Later records of the connection, found by walking the record marks of the byte stream
+        // (whatever the segmentation): every record that is a call the statement speaks about is
+        // answered - by a reply record with its xid - in the segment that delivers its last byte.
+        // Records that are no calls (replies, garbage) are skipped by their marks, as a stream
+        // reader does; the walk ends at the first incomplete record.
+        let mut pos = s0.len;
+        let mut guard = 0;
+        while pos + 4 <= st.stream.len() && guard < 64 {
+            guard += 1;
+            // one record = fragments up to the one with the last-fragment bit
+            let start = pos;
+            let mut body: Vec<u8> = Vec::new();
+            let mut i = pos;
+            let mut complete = false;
+            let mut nfrag = 0;
+            while i + 4 <= st.stream.len() && nfrag < 64 {
+                let m = u32::from_be_bytes([st.stream[i], st.stream[i + 1], st.stream[i + 2], st.stream[i + 3]]);
+                let l = (m & 0x7fff_ffff) as usize;
+                if i + 4 + l > st.stream.len() {
+                    break;
+                }
+                body.extend_from_slice(&st.stream[i + 4..i + 4 + l]);
+                i += 4 + l;
+                nfrag += 1;
+                if m & 0x8000_0000 != 0 {
+                    complete = true;
+                    break;
+                }
             }
-            let p = &st.stream[sg.off..sg.off + sg.len];
-            if p.len() < 32 {
+            if !complete {
                 break;
             }
-            let (body, nfrag) = match rpc::defragment(p) {
+            let end = i;
+            pos = end;
+            // the segment that delivers the record's last byte
+            let sg = match st.segs.iter().find(|x| x.off < end && end <= x.off + x.len) {
                 Some(x) => x,
                 None => break,
             };
+            if body.len() < 8 || body[4..8] != [0, 0, 0, 0] {
+                t.probe("non-call-record-skipped-on-an-rpc-connection");
+                continue;
+            }
             if nfrag > 1 {
                 t.probe("call-in-several-record-fragments");
             }
+            // the reply record for this call among the records of that segment's payload
+            let xid = &body[..4];
+            let mut found: Option<Vec<u8>> = None;
+            if let Some(r) = sg.reply_app.as_deref() {
+                let mut j = 0usize;
+                while j + 8 <= r.len() {
+                    let l = (u32::from_be_bytes([r[j] & 0x7f, r[j + 1], r[j + 2], r[j + 3]])) as usize;
+                    if j + 4 + l > r.len() {
+                        break;
+                    }
+                    if &r[j + 4..j + 8] == xid {
+                        found = Some(r[j..j + 4 + l].to_vec());
+                        break;
+                    }
+                    j += 4 + l;
+                }
+                if found.is_none() && !r.is_empty() && sg.off <= start {
+                    // a payload that does not split into records: judge it as it is
+                    found = Some(r.to_vec());
+                }
+            }
             let c = Case {
                 call: &body,
-                wire: p,
-                reply: sg.reply_app.as_deref(),
+                wire: &st.stream[start..end],
+                reply: found.as_deref(),
                 tcp: true,
                 dst: st.flow.dst,
                 dport: st.flow.dport,
@@ -250,9 +299,7 @@ pub fn check(a: &Analysis, _aux: &mut Aux, t: &mut Tally) -> Vec<Violation> {
                 later: true,
             };
             t.probe("later-call-on-an-rpc-connection");
-            if !judge(&c, &sigs, t, &mut v) {
-                break;
-            }
+            judge(&c, &sigs, t, &mut v);
         }
     }
     v
